@@ -22,9 +22,9 @@ import (
 )
 
 type JTree struct {
-	Gone  bool             `json:"gone"`
-	Files []string         `json:"files"`
-	Dirs  json.RawMessage  `json:"dirs"`
+	Gone  bool            `json:"gone"`
+	Files []string        `json:"files"`
+	Dirs  json.RawMessage `json:"dirs"`
 	dirs  map[string]*JTree
 }
 
